@@ -350,7 +350,11 @@ def defaults_copied(prog, an, rep):
               if isinstance(n, ast.Assign) and
               isinstance(n.targets[0], ast.Subscript) and
               src(n.targets[0].value).endswith('.settings')]
-    rep.floor('C10 init_settings stores', len(stores), 1)
+    rep.evaluated()
+    rep.check(bool(stores), R, f.qname + ': stores each option separately',
+              f.where(), 'init_settings no longer assigns job.settings[key] '
+              'option by option: the defaults cannot be copied per job '
+              '(bulk update shares mutable defaults between jobs)')
     for st in stores:
         rep.evaluated()
         v = st.value
